@@ -58,7 +58,17 @@ def set_zobrist():
     return {"package": "inkayaku_board", "append_to": "board/src/board/zobrist.rs", "module": _read("kani/zobrist.rs")}
 
 
+def set_eval():
+    return {"package": "inkayaku_engine_core", "append_to": "engine_core/src/engine/heuristic/simple.rs", "module": _read("kani/eval.rs")}
+
+
+def set_square():
+    return {"package": "inkayaku_core", "append_to": "core/src/constants/square.rs", "module": _read("kani/square.rs")}
+
+
 SETS = {
+    "square": set_square,
+    "eval": set_eval,
     "zobrist": set_zobrist,
     "rules": set_rules,
     "tables": set_tables,
@@ -76,6 +86,13 @@ def _table_harnesses():
 
 HARNESSES = {
     "tables": _table_harnesses(),
+    "square": {
+        "from_chars_total_and_exact": {"complete": True, "note": "all char x char pairs, loop-free"},
+    },
+    "eval": {
+        "black_tables_are_mirrored_white_tables": {"complete": True, "note": "symbolic (stage, piece, square) over the real constant tables"},
+        "piece_square_sum_symmetric": {"complete": True, "note": "symbolic 64-bit occupancy, symbolic (stage, piece); loop bounded by operand width (unwind 65, unwinding assertions on)"},
+    },
     "zobrist": {
         "accessors_in_bounds_and_zero_rows": {"complete": True, "note": "symbolic (piece<7, square<64, color<=1) and any e.p. square"},
         "castle_keys": {"complete": True, "note": "concrete: the four castle constants"},
@@ -211,32 +228,35 @@ fn verif_replay_counterexample() {{
 
 
 def parse_playback(out, harness):
-    """concrete values of the test generated for a failed assertion (not for a cover) of `harness`"""
+    """concrete value sets Kani generated for `harness`: tests for failed assertions first, then tests for cover
+    properties (Kani emits no test for a failed arithmetic-overflow check; a cover test may still hit it)"""
     tests = re.findall(r"```\n(.*?)```", out, flags=re.S)
-    best = None
+    cands = []
     for t in tests:
         if f"kani_concrete_playback_{harness}_" not in t:
             continue
         vals = [[int(x) for x in v.split(",") if x.strip()] for v in re.findall(r"vec!\[([0-9,\s]*)\],", t)]
-        comments = re.findall(r"//\s*(.+)", t)
+        comments = [c.strip() for c in re.findall(r"(?m)^\s*//\s+(.+)$", t)]
         is_cover = "Check for `cover`" in t
-        if best is None or (best[2] and not is_cover):
-            best = (vals, comments, is_cover)
-    if best is None or best[2]:
-        return None
-    return {"byte_vectors": best[0], "rendered": [c for c in best[1] if not c.startswith("/")][:40]}
+        cands.append({"byte_vectors": vals, "rendered": comments[:40], "from": "cover" if is_cover else "assertion"})
+    cands.sort(key=lambda c: 0 if c["from"] == "assertion" else 1)
+    return cands
 
 
 def playback_and_replay(set_name, harness, timeout=1500):
     """re-run one failed harness with concrete playback, then run the same harness natively on the counterexample"""
     info = {"counterexample": None, "replay": None}
     r = run_set(set_name, [harness], jobs=1, timeout=timeout, playback=True)
-    cx = parse_playback(r["output_tail"] if len(r.get("full_output", "")) == 0 else r["full_output"], harness)
-    if cx is None:
+    cands = parse_playback(r["full_output"] or r["output_tail"], harness)
+    if not cands:
         info["note"] = "Kani produced no concrete values (timeout or unsupported)"
         return info
-    info["counterexample"] = cx
-    info["replay"] = native_replay(set_name, harness, cx["byte_vectors"])
+    for cx in cands[:6]:
+        rp = native_replay(set_name, harness, cx["byte_vectors"])
+        if rp["reproduced"] or info["replay"] is None:
+            info["counterexample"], info["replay"] = cx, rp
+        if rp["reproduced"]:
+            break
     return info
 
 
